@@ -27,6 +27,7 @@ pub fn run(ctx: &Ctx) {
                 continue;
             }
             rep.raw(json!({"t":"journal","case":case}));
+            let _g = op_begin("region-levels", case);
             let id = case ^ 0x18;
             let content = body(id, len);
             // ---- platform level
